@@ -1,48 +1,46 @@
-"""Per-property stage definitions for the orchestrator (bin/check.py).
+"""Per-property stage definitions for the orchestrator (bin/check.py), one file per property in bin/props.d/CNN.py.
 
+Each file defines SPEC (level, assumptions, stages) and META (manifest text: level_text, technique, level_note, engine).
 stage keys: kind (gen|enum|hyp|custom), binary, target, cases_quick/cases_thorough, max_seconds_*, min_cases_*, floors
-(class -> minimal fraction of cases, else the run is reported as GENERATOR-DEGENERATE), tiers, workers_*, rule.
-Rules (how cases are generated, what is non-trivial) live with the targets (`vh_cNN --list`) and are copied here by
-bin/sync_rules.py at setup time into build/rules.json; check.py falls back to the `rule` key.
+(class -> minimal fraction of cases, else the run is reported as GENERATOR-DEGENERATE), tiers, workers_*, rule, cfg (san|tsan),
+needs ([(cfg, ninja_target), ...] extra things to build), replays_needed/replays_total.
 """
+import glob
+import os
+
 
 def gen(binary, target, q, t, **kw):
     d = {"kind": "gen", "binary": binary, "target": target, "cases_quick": q, "cases_thorough": t}
     d.update(kw)
     return d
 
+
 def enum(binary, target, **kw):
     d = {"kind": "enum", "binary": binary, "target": target}
     d.update(kw)
     return d
 
-PROPS = {
-    "C03": {
-        "level": "exploration",
-        "assumptions": ["reference model written from the property statement (order of rules as stated)",
-                        "21M BTC = 2,100,000,000,000,000 satoshi"],
-        "stages": [
-            gen("vh_c03", "c03_checktx", 1500000, 30000000, min_cases_quick=100000, floors={"multi-violation": 0.05, "near-limit": 0.05, "accepted": 0.01},
-                rule="structured txs; non-trivial = >=2 rules violated or a field within +-1 of a limit"),
-            gen("vh_c03", "c03_bulk", 1200, 40000, rule="bulk scriptSig at the 1,000,000-byte no-witness boundary; all non-trivial"),
-            enum("vh_c03", "c03_ruletable", rule="exhaustive 2^9 rule-violation combinations x 4 variants"),
-        ],
-    },
-    "C09": {
-        "level": "exploration",
-        "assumptions": ["RefLedger replay (own UTXO rules, no script evaluation) is the reference; scripts are valid by construction",
-                        "regtest chain, base of 104 empty blocks, histories <= 45 ops"],
-        "stages": [
-            gen("vh_c09", "c09_utxo_history", 640, 12000, min_cases_quick=200, floors={"reorg-depth>=2": 0.15, "deep-undo-of-old-spend": 0.1, "flush": 0.2, "invalidate": 0.2},
-                rule="reorg histories; non-trivial = reorg depth>=2 undoing a spend of a pre-fork coin + coinbase spent"),
-        ],
-    },
-    "C31": {
-        "level": "exploration",
-        "assumptions": ["closed-form reference: 50e8 sat halved once per completed interval, 0 from the 64th halving"],
-        "stages": [
-            gen("vh_c31", "c31_boundaries", 3000000, 30000000, rule="heights around halving boundaries; non-trivial = within +-3 of boundary k<=64"),
-            enum("vh_c31", "c31_all_heights", rule="exhaustive: all 2^31 heights x distinct halving intervals"),
-        ],
-    },
-}
+
+def hyp(module, q, t, **kw):
+    """Hypothesis stage: py/<module> run by python3-vt with the worker protocol of py/e2.py."""
+    d = {"kind": "hyp", "module": module, "cases_quick": q, "cases_thorough": t}
+    d.update(kw)
+    return d
+
+
+def custom(script, q, t, **kw):
+    """Any executable (path relative to /verif) speaking the worker protocol (see bin/check.py worker_cmd)."""
+    d = {"kind": "custom", "script": script, "cases_quick": q, "cases_thorough": t}
+    d.update(kw)
+    return d
+
+
+PROPS = {}
+META = {}
+for _f in sorted(glob.glob(os.path.join(os.path.dirname(os.path.abspath(__file__)), "props.d", "C*.py"))):
+    _ns = {"gen": gen, "enum": enum, "hyp": hyp, "custom": custom}
+    exec(compile(open(_f).read(), _f, "exec"), _ns)
+    _pid = os.path.splitext(os.path.basename(_f))[0]
+    if _ns.get("SPEC"):
+        PROPS[_pid] = _ns["SPEC"]
+        META[_pid] = _ns.get("META", {})
